@@ -158,6 +158,47 @@ Example C18_sniffed_classes :
    Some (bs "1.2.3.4"); Some (bs "::1"); Some (bs "::1"); Some (bs "::1"); Some []; None; None]%string.
 Proof. vm_compute. reflexivity. Qed.
 
+(* The DNS-knowledge keys.  The code's key function (DnsController.cacheKey = miekg CanonicalName + type,
+   cut at "|" on the store side) maps a name to its normal form (lower case, no trailing dot) + "." + type;
+   hence the key under which an answer for a question name AS IT ARRIVES ON THE WIRE (mixed case, trailing
+   dot) is remembered is the key ChooseDialTarget looks up for every spelling of that name that is equal up
+   to ASCII case and a trailing dot.  For all names without an escaped final dot ("\.") and, on the store
+   side, without "|". *)
+Theorem C18_store_key_is_lookup_key :
+  forall qname dom q scope,
+    same_name qname dom = true ->
+    no_escaped_dot qname = true -> no_pipe qname = true -> no_escaped_dot dom = true ->
+    store_key qname q scope = lookup_key dom q.
+Proof. exact store_key_is_lookup_key. Qed.
+Print Assumptions C18_store_key_is_lookup_key.
+
+(* ... so a name resolved through dae is "resolved" for every sniffed spelling while its TTL runs *)
+Theorem C18_resolved_name_is_known :
+  forall evs qname q scope e now dom ttl,
+    In (EvResolved (store_key qname q scope) e) evs -> (now < e)%Z ->
+    same_name qname dom = true ->
+    no_escaped_dot qname = true -> no_pipe qname = true -> no_escaped_dot dom = true ->
+    k_resolved (knowledge_now ttl evs (lookup_key dom q) dom now) = true.
+Proof. exact resolved_name_is_known. Qed.
+Print Assumptions C18_resolved_name_is_known.
+
+(* the history theorem over wire-form histories: question names and sniffed names as they arrive, keys
+   computed by the code's own key functions *)
+Theorem C18_history_table_wire :
+  forall (is_ip : str -> bool) (mode : dial_mode) (now0 : Z) (h : list wire_op),
+    history_ok is_ip mode (init_state now0) [] (map op_of_wire h).
+Proof. exact history_table_wire. Qed.
+Print Assumptions C18_history_table_wire.
+
+(* the variant of cacheKey that canonicalises only names WITHOUT a trailing dot does not have the
+   agreement property: question "wWw.SeEd-DeMo.ExAmPlE." vs sniffed "www.seed-demo.example" *)
+Theorem C18_key_only_without_dot_refuted :
+  exists qname dom q,
+    same_name qname dom = true /\ no_escaped_dot qname = true /\ no_pipe qname = true /\ no_escaped_dot dom = true /\
+    base_key (cache_key_only_without_dot qname q) <> cache_key_only_without_dot dom q.
+Proof. exact key_variant_refuted. Qed.
+Print Assumptions C18_key_only_without_dot_refuted.
+
 (* chooseProxyDialer: for every state reachable by a history (Inv: the state is what the past events say)
    the outbound finally used is the routing result exactly when the flow is routed again (or arrived
    marked for control-plane routing), and the dial target handed to the node dialer obeys the decision
